@@ -39,7 +39,7 @@ m = {
          "kind_free_text": "Coq 8.16 theorems over (A) a model regenerated from /repo's headers on every run by instantiating them with a symbolic scalar (tracer/) and (B) hand-written executable Gallina models tied by correspondence runs (extract/, harness/)"},
     ],
     "checks": checks,
-    "notes": "All checks: ./check <id> --tier quick|thorough (python3 driver; see DESIGN.md section 2.2). Known findings: /verif/known_findings.jsonl.",
+    "notes": "All checks: ./check <id> --tier quick|thorough (python3 driver; see DESIGN.md section 2.2). Known findings and fixed entries: /verif/known_findings.jsonl and /verif/known_findings.d/*.jsonl. Seeded breaking changes used to test the checks: /verif/seeded/ (DESIGN.md section 11).",
     "not_applicable": na,
 }
 json.dump(m, open(os.path.join(V, "MANIFEST.json"), "w"), indent=1)
